@@ -2,7 +2,7 @@
    Part 1: definitions (depth, normal form, well-formedness) and the induction principle for terms. *)
 From Coq Require Import NArith ZArith List Lia Bool Arith.
 From ACPI Require Import Lib.Bytes Lib.Sx Lib.Machine Impl.AmlCore Impl.AmlTerm Spec.AmlCoreS Spec.AmlTermS
-  Proofs.PkgLenP Proofs.IntP Proofs.PathP Proofs.AmlFrameP Proofs.EisaUuidP.
+  Proofs.PkgLenP Proofs.IntP Proofs.PathP Proofs.AmlFrameP Proofs.EisaUuidP Proofs.FrameSitesP Proofs.FieldListP.
 Import ListNotations.
 Open Scope N_scope.
 
@@ -432,9 +432,16 @@ Section Main.
         | Some q, Some gs => Some (if el then GName (p_root q) (p_parts q) else GCall (p_root q) (p_parts q) gs)
         | _, _ => None
         end
-    | TField _ _ _ _ _ => None
+    | TField p ac lk up es =>
+        (* DefField: NameString, FieldFlags byte, then the field list *)
+        mkop 0x5B81 [name_gt p; Some (GNum (ac + 16 * lk + 32 * up))] (Some (map fentry_gt es))
     | TPackage ks | TPkgBuilder ks => mkop 0x12 [Some (GNum (N.of_nat (length ks)))] (norms true ks)
-    | TResTemplate _ => None
+    | TResTemplate ks =>
+        (* a Buffer whose declared size is its payload: the descriptors' bytes and the end tag (not parsed as AML) *)
+        match template_payload ks with
+        | Some payload => Some (GBuffer (GInt (N.of_nat (length payload))) payload)
+        | None => None
+        end
     | TIf pr ks => mkop 0xA0 [norm false pr] (norms false ks)
     | TElse ks => mkop 0xA1 [] (norms false ks)
     | TWhile pr ks => mkop 0xA2 [norm false pr] (norms false ks)
@@ -476,9 +483,9 @@ Section Main.
     | TRelease p => wf_name p
     | TCall p args => (exists q, path_new p = Some q /\ wf_parts (p_parts q) /\
                                  (if el then args = [] else env (key_of q) = length args)) /\ wfs false args
-    | TField _ _ _ _ _ => False
+    | TField p ac lk up es => wf_name p /\ ac < 16 /\ lk <= 1 /\ up < 4 /\ Forall wf_fentry es
     | TPackage ks | TPkgBuilder ks => wfs true ks
-    | TResTemplate _ => False
+    | TResTemplate ks => Forall desc_child ks      (* bare descriptors: allowed here, and only here *)
     | TIf pr ks | TWhile pr ks => wf false pr /\ wfs false ks
     | TElse ks => wfs false ks
     end.
@@ -1180,6 +1187,48 @@ Section Ops.
     - unfold key_of in Har. rewrite Har, <- Hlen. rewrite (parse_n_concat (parse env f) es gs r) by (apply Hall; lia). reflexivity.
   Qed.
 
+
+  (* ---- DefField: name and flags items, then a field list (no nested objects) ---- *)
+  Lemma RT_field p ac lk up es : RT (TField p ac lk up es).
+  Proof.
+    intros el md b W E Hsz. prep E W. destruct W as (Wp & Wac & Wlk & Wup & Wes).
+    destruct (enc_path_text p) as [ep|] eqn:Ep; [|discriminate]. cbn [option_bind] in E.
+    destruct (opt_concat_map (enc_fentry md) es) as [ees|] eqn:Ee; [|discriminate]. cbn [option_bind] in E.
+    rewrite field_flags in E by assumption.
+    set (fl := ac + 16 * lk + 32 * up) in *.
+    unfold framed in E. destruct (pkg_len md _ true) as [pl|] eqn:Epl; [|discriminate].
+    cbn [option_bind] in E. inversion E; subst b. clear E.
+    assert (Hb : N.of_nat (length (ep ++ [fl] ++ ees)) < 2 ^ 63).
+    { cbn [app length] in Hsz. rewrite !app_length in Hsz. cbn [length] in Hsz. cbn [app]. rewrite app_length. cbn [length]. lia. }
+    destruct (name_item p ep [] Wp Ep) as (rt0 & segs & Hng & _).
+    exists (GOp 0x5B81 [GName rt0 segs; GNum fl] (map fentry_gt es)).
+    split; [unfold mkop; cbn [opt_all]; rewrite Hng; reflexivity|].
+    intros f Hf. fuel f. intros r. cbn [parse app]. rewrite dispatch_ext. change (0x5B00 + 0x81) with 0x5B81.
+    replace ((pl ++ ep ++ fl :: ees) ++ r) with (pl ++ (ep ++ [fl] ++ ees) ++ r) by (rewrite <- !app_assoc; reflexivity).
+    eapply (parse_op_framed _ 0x5B81 [KName; KByte] LFields md (ep ++ [fl] ++ ees) pl r [GName rt0 segs; GNum fl] ees
+              (map fentry_gt es)); [reflexivity|exact Hb|exact Epl| |].
+    - destruct (name_item p ep ([fl] ++ ees) Wp Ep) as (rt1 & segs1 & Hng1 & Hd1).
+      rewrite Hng in Hng1. inversion Hng1; subst.
+      eapply parse_items_name; [exact Hd1|]. cbn [app]. apply parse_items_byte. reflexivity.
+    - apply (parse_fields_concat md); [exact Wes|exact Ee|lia].
+  Qed.
+
+  (* ---- ResourceTemplate: a Buffer with an integer size and an opaque payload ---- *)
+  Lemma RT_restemplate ks : RT (TResTemplate ks).
+  Proof.
+    intros el md b W E Hsz. cbn [wf] in W. rewrite restemplate_framed in E. cbv zeta in E. rewrite encs_fix in E.
+    destruct (encs md ks) as [eks|] eqn:Ek; [|discriminate]. cbn [option_bind] in E.
+    pose proof (encs_template md ks eks W Ek) as Hp.
+    set (payload := eks ++ [0x79; 0]) in *.
+    assert (Hn : N.of_nat (length payload) < 2 ^ 64).
+    { unfold framed in E. destruct (pkg_len md _ true) as [pl|]; [|discriminate]. cbn [option_bind] in E. inversion E; subst b.
+      cbn [app length] in Hsz. rewrite !app_length in Hsz. change (2 ^ 63) with 9223372036854775808 in Hsz.
+      change (2 ^ 64) with 18446744073709551616. lia. }
+    rewrite enc_usize_spec in E by exact Hn.
+    exists (GBuffer (GInt (N.of_nat (length payload))) payload). split; [cbn [norm]; rewrite Hp; reflexivity|].
+    intros f Hf. cbn [depth] in Hf. destruct f as [|[|f]]; try lia. eapply (rt_int_buffer env); eauto.
+  Qed.
+
   (* the round trip, for every term of the well-formed fragment *)
   Theorem roundtrip : forall t, RT t.
   Proof.
@@ -1191,9 +1240,74 @@ Section Ops.
     - now apply RT_name. - now apply RT_device. - now apply RT_scope. - now apply RT_scoperaw. - now apply RT_method.
     - now apply RT_power. - now apply RT_opregion. - apply RT_mutex. - apply RT_acquire. - apply RT_release.
     - now apply RT_call.
-    - intros el md b W. destruct W.
+    - apply RT_field.
     - now apply (RT_package false). - now apply (RT_package true).
-    - intros el md b W. destruct W.
+    - apply RT_restemplate.
     - now apply (RT_ifwhile true). - now apply RT_else. - now apply (RT_ifwhile false).
   Qed.
 End Ops.
+
+(* =====================================================================================================
+   Non-vacuity of the Field and ResourceTemplate cases: concrete terms are well-formed, are emitted, and parse back
+   (completely, r = []) to their normal form. *)
+
+(* Field (FLD0, ByteAcc, Lock, WriteAsOnes) { ABCD, 8, Offset-style gap of 4 bits, EFGH, 300, gap of 70000 bits, _X01, 1 } :
+   widths needing 1-, 2- and 3-byte PkgLengths *)
+Definition field_demo : term :=
+  TField [70; 76; 68; 48] 1 1 1
+    [FNamed [65; 66; 67; 68] 8; FReserved 4; FNamed [69; 70; 71; 72] 300; FReserved 70000; FNamed [95; 88; 48; 49] 1].
+
+(* ResourceTemplate { Memory32Fixed (rw, 0xFED00000, 0x1000), IO (0x3F8, 0x3F8, 1, 8), Interrupt (consumer, level, high, excl, 4),
+   QWordMemory [0x1_0000_0000 .. 0x1_FFFF_FFFF] } *)
+Definition template_demo : term :=
+  TResTemplate [TDesc (DMem32 1 0xFED00000 0x1000); TDesc (DIO 0x3F8 0x3F8 1 8); TDesc (DIrq 1 0 0 0 4);
+                TDesc (DAddr 64 0 1 1 0x100000000 0x1FFFFFFFF None)].
+
+Example field_demo_wf : wf (fun _ => O) false field_demo.
+Proof.
+  cbn [field_demo wf]. split; [|split; [reflexivity|split; [discriminate|split; [reflexivity|]]]].
+  - eexists. split; [vm_compute; reflexivity|]. repeat constructor.
+  - repeat constructor.
+Qed.
+
+Example template_demo_wf : wf (fun _ => O) false template_demo.
+Proof. cbn [template_demo wf]. repeat constructor; eexists; reflexivity. Qed.
+
+Example field_demo_parses :
+  match enc Wrapping field_demo with
+  | Some b => parse (fun _ => O) 1 false b = option_map (fun g => (g, [])) (norm false field_demo) /\
+              norm false field_demo =
+              Some (GOp 0x5B81 [GName false [[70; 76; 68; 48]]; GNum 49]
+                      [GField [65; 66; 67; 68] 8; GField [] 4; GField [69; 70; 71; 72] 300; GField [] 70000;
+                       GField [95; 88; 48; 49] 1])
+  | None => False
+  end.
+Proof. vm_compute. split; reflexivity. Qed.
+
+Example template_demo_parses :
+  match enc Wrapping template_demo with
+  | Some b => parse (fun _ => O) 2 false b = option_map (fun g => (g, [])) (norm false template_demo) /\
+              match norm false template_demo with
+              | Some (GBuffer (GInt n) payload) => n = N.of_nat (length payload) /\ n = 12 + 8 + 9 + 46 + 2
+              | _ => False
+              end
+  | None => False
+  end.
+Proof. vm_compute. repeat split; reflexivity. Qed.
+
+(* the theorem applies to them (both build profiles, any continuation) *)
+Example field_demo_roundtrip md b : enc md field_demo = Some b -> N.of_nat (length b) < 2 ^ 63 ->
+  exists g, norm false field_demo = Some g /\ forall r, parse (fun _ => O) 1 false (b ++ r) = Some (g, r).
+Proof.
+  intros E Hsz. destruct (roundtrip (fun _ => O) field_demo false md b field_demo_wf E Hsz) as (g & Hg & Hrt).
+  exists g. split; [exact Hg|]. intros r. apply Hrt. cbn [depth field_demo]. lia.
+Qed.
+
+Example template_demo_roundtrip md b : enc md template_demo = Some b -> N.of_nat (length b) < 2 ^ 63 ->
+  exists g, norm false template_demo = Some g /\ forall r, parse (fun _ => O) 2 false (b ++ r) = Some (g, r).
+Proof.
+  intros E Hsz. destruct (roundtrip (fun _ => O) template_demo false md b template_demo_wf E Hsz) as (g & Hg & Hrt).
+  exists g. split; [exact Hg|]. intros r. apply Hrt. cbn. lia.
+Qed.
+
+Print Assumptions roundtrip.
